@@ -257,6 +257,9 @@ func checkC12(c *core.Ctx) []core.Floor {
 		hr := core.NewRand(core.SubSeed(c.Seed, "C12H", i))
 		h := gen.NewHist(hr, false)
 		h.MaxTables = hr.Range(1, 3)
+		if i%4 == 3 {
+			h.MaxTables = hr.Range(8, 12) // the catalog trees get a second level: their leaves are pages like any other
+		}
 		dir := c.CaseDir("c12h")
 		defer removeAll(dir)
 		var s script
@@ -266,6 +269,9 @@ func checkC12(c *core.Ctx) []core.Floor {
 		s.sql("USE d1")
 		var walks []int
 		n := hr.Range(20, 60)
+		if i%4 == 3 {
+			n = hr.Range(50, 90)
+		}
 		for k := 0; k < n; k++ {
 			if hr.Chance(1, 6) && len(h.DB.Tables) > 0 {
 				s.stmt(h.Burst(h.DB.Tables[0], hr.Range(30, 120)))
